@@ -333,6 +333,8 @@ class Sem:
                 if {ka, kb} == {"Flt", "int"} or {ka, kb} == {"Flt", "bool"}:
                     raise Unsupported("float/int comparison")
                 return "false"
+        if {ka, kb} <= {"cls", "int"}:
+            return EQ(a.t, b.t)           # a class object against a class id of the table
         raise Unsupported("== between %r and %r" % (a.ty, b.ty))
 
     _CONSTQN = re.compile(r'^\(mkQN \(mkNs ("(?:[^"]|"")*") ("(?:[^"]|"")*")\) ("(?:[^"]|"")*")\)$')
@@ -686,6 +688,16 @@ class Sem:
             else:
                 return arr
         return arr
+
+    def fs_term(self, st):
+        key = ("$", "fs")
+        if key in st.heap:
+            return st.heap[key]
+        if "FS@0" not in self.cx.funs_known:
+            self.cx.funs_known.add("FS@0")
+            self.cx.sorts.sort(T.Opt(T.STR))
+            self.cx.consts.append(("FS@0", "(Array String Opt_Str)"))
+        return "FS@0"
 
     def heap_term(self, st, key, ft):
         if key not in st.heap:
